@@ -248,6 +248,15 @@ def run(ck):
     _g7(ck, fns)
     from .c01 import non_empty_filter
     non_empty_filter(ck, "C07.G8")
+    # ---- lookups by equality / unpacking that abort on well-formed input when their argument is altered
+    ck.clause("C07.G9", "row header coordinates are the exact label coordinates: getUnalignedFragments finds the cut point with "
+                        "positions.index(<header coordinate>), which raises ValueError for an altered (e.g. rounded) value")
+    from .c02 import header_derivation
+    header_derivation(ck, "C07.G9")
+    ck.clause("C07.G10", "the additional output file name is built with os.path.splitext (total: any path, with or without an "
+                         "extension) - never by unpacking a split of the name")
+    from .c08 import _file_naming
+    _file_naming(ck, "C07.G10")
 
 
 def _strip_iter(t: Term) -> Term:
